@@ -51,8 +51,14 @@ func reloadScript(nonce string) *html.Node {
 
 var ErrBodyNotFound = fmt.Errorf("body not found")
 
+// utf8BOM is consumed by a browser's decoder and is not part of the document.
+// html.Parse treats it as text, which would move it (and everything up to the
+// first body content, including the doctype) into the body element.
+const utf8BOM = "\xef\xbb\xbf"
+
 func insertScriptTagIntoBody(nonce, body string) (updated string, err error) {
-	n, err := html.Parse(strings.NewReader(body))
+	hasBOM := strings.HasPrefix(body, utf8BOM)
+	n, err := html.Parse(strings.NewReader(strings.TrimPrefix(body, utf8BOM)))
 	if err != nil {
 		return body, err
 	}
@@ -62,6 +68,9 @@ func insertScriptTagIntoBody(nonce, body string) (updated string, err error) {
 	}
 	bodyNodes[0].AppendChild(reloadScript(nonce))
 	buf := new(bytes.Buffer)
+	if hasBOM {
+		buf.WriteString(utf8BOM)
+	}
 	if err = html.Render(buf, n); err != nil {
 		return body, err
 	}
